@@ -73,3 +73,33 @@ def run_C11(ctx):
 
 def run_C05(ctx):
     return run_wire(ctx, ["C02", "C08", "C11", "C01"], 8000, 80000, 300)
+
+
+def sig_resp(rj):
+    sc = rj["trace"][0]["sc"]
+    ev = rj["event"]
+    got = "ok" if ev.get("ok") else "code%s" % ev.get("code")
+    if ev.get("ev") in ("panic", "hang"):
+        got = ev["ev"]
+    return "C06|%s/%s|status=%s|h=%s/%s|t=%s/%s|cerr=%s|body=%s|case=%s|got=%s,lookup=%s" % (
+        sc["proto"], sc["kind"], sc["status"], sc["hstatus"], sc["hdetails"], sc["tstatus"], sc["tdetails"],
+        sc["cerr"], sc["body"], sc["casing"], got, ev.get("lookup"))
+
+
+def run_C06(ctx):
+    quick = ctx.tier == "quick"
+    core.design_check(ctx, "MC_Resp", "MC_Resp.cfg")
+    scen = core.generate(ctx, "MC_Resp", "Gen_Resp.cfg", tag="genresp")["scenarios"]
+    # byte-level fuzz inside every head class: arbitrary bodies
+    fuzz = []
+    for s in core.sample(ctx.rng, scen, 3000 if quick else 30000):
+        fuzz.append(dict(s, fuzz=ctx.rng.choice([1, 4, 5, 6, 9, 17, 64, 300])))
+    tf = core.run_runner(ctx, "resp", scen + fuzz, tag="resp")
+    acc, rej = core.validate(ctx, "TraceResp", tf, tag="resp", sigfn=sig_resp)
+    core.judge(ctx, rej)
+    return core.finish(ctx, rule="TLC enumerates response classes (status x content type x encoding header x gRPC "
+                       "status/details in headers and terminator x Connect error JSON class x body class x key "
+                       "casing x protocol x call shape) from spec/MC_Resp.tla; every one is fed to the real client "
+                       "through a scripted HTTPClient, plus seeded random bodies per head class; non-trivial = a "
+                       "trace with a done event", exhaustive=True,
+                       assumptions=["crafted responses are built by the reference codec"])
